@@ -14,12 +14,14 @@ CONSTANTS
   SeqAlphaB = {"A", "C", "-"}
   SeqLensB = {3, 4}
   HomoLens = {9, 10, 12}
+  QSeqs = 3
   PairAlpha = {"a", " ", ">", "|", "%"}
   PairLen = 2
 INVARIANT TypeOK
 INVARIANT RoundTripOnClean
 INVARIANT LineParsersKeepGt
 INVARIANT BytesParserKeepsGt
+INVARIANT BytesParserKeepsEmpty
 INVARIANT HasGtCovered
 INVARIANT BlankEdgesAreLost
 INVARIANT LayoutsSound
